@@ -32,15 +32,17 @@ type evictOpts struct {
 	leafQuota               map[string]float64 // concrete deserved quota of these leaf queues (else symbolic)
 	morePending             int                // further pending jobs p1.. in the pending job's queue (or otherPendingQ)
 	otherPendingQ           string
-	fixedCpu                float64 // with sameCpu: the shared request is this concrete value
-	symLimit                bool    // the pending job's leaf queue (single-department world) has a symbolic limit
-	gpuDim                  bool    // whole GPUs instead of milli-cpu (requests >= 1)
-	secondNode              bool    // a second node n1 with symbolic free capacity (victims run on n0)
-	strictReclaim           bool    // allow-consolidating-reclaim=false: moved victims count as reclaimed too
-	pendingCpu              float64 // > 0: the pending job's request (overrides the shared one)
-	slackCpu, spareCpu      float64 // > 0: concrete free cpu on n0 / concrete cpu of n1 (instead of symbolic)
-	elasticAtMinimum        bool    // victim v0 has one running and one pending pod, minimum 1 (it runs at its minimum size)
-	signatures              bool    // scheduling signatures on (failed jobs' shape prunes later identical ones)
+	fixedCpu                float64            // with sameCpu: the shared request is this concrete value
+	symLimit                bool               // the pending job's leaf queue (single-department world) has a symbolic limit
+	gpuDim                  bool               // whole GPUs instead of milli-cpu (requests >= 1)
+	secondNode              bool               // a second node n1 with symbolic free capacity (victims run on n0)
+	strictReclaim           bool               // allow-consolidating-reclaim=false: moved victims count as reclaimed too
+	pendingCpu              float64            // > 0: the pending job's request (overrides the shared one)
+	slackCpu, spareCpu      float64            // > 0: concrete free cpu on n0 / concrete cpu of n1 (instead of symbolic)
+	elasticAtMinimum        bool               // victim v0 has one running and one pending pod, minimum 1 (it runs at its minimum size)
+	milliCpu                map[string]float64 // GPU worlds: milli-cpu of the named jobs (default 100)
+	symVictimStatus         bool               // every victim pod's status is Running, Bound or Binding (all occupy their node)
+	signatures              bool               // scheduling signatures on (failed jobs' shape prunes later identical ones)
 }
 
 type evictWorld struct {
@@ -63,7 +65,7 @@ func hoursOrNil(name string, on bool) *int64 {
 }
 
 func actEvictWorld(o evictOpts) *evictWorld {
-	w := &actWorld{vm: resource_info.NewResourceVectorMap(), gpuDim: o.gpuDim}
+	w := &actWorld{vm: resource_info.NewResourceVectorMap(), gpuDim: o.gpuDim, milliCpu: o.milliCpu}
 	minReq := 10.0
 	if o.gpuDim {
 		minReq = 1
@@ -132,6 +134,9 @@ func actEvictWorld(o evictOpts) *evictWorld {
 		for k := range cpus {
 			if sts[k] != pod_status.Pending {
 				total += cpu
+				if o.symVictimStatus {
+					sts[k] = []pod_status.PodStatus{pod_status.Running, pod_status.Bound, pod_status.Binding}[vr.Choose(vs.Name(name+".status", k), 3)]
+				}
 			}
 		}
 		vp := true
@@ -401,9 +406,9 @@ func VerifC07_ReclaimAction_Thorough() {
 // VerifC05_ReclaimProgress: unobstructed case of interchangeable single-pod workloads: a pending
 // job that keeps its queue within deserved quota obtains capacity from a preemptible pod of an
 // over-quota queue within the cycle.
-// BOUND: 1 full node; d <- qa, qb; one running preemptible pod in qb, one pending pod in qa, one shared symbolic cpu request; symbolic deserved quotas and fair shares
+// BOUND: 1 full node; d <- qa, qb; one preemptible pod (Running, Bound or Binding) in qb, one pending pod in qa, one shared symbolic cpu request; symbolic deserved quotas and fair shares
 func VerifC05_ReclaimProgress() {
-	w := actEvictWorld(evictOpts{bits: 6, nVictims: 1, victimQ: []string{"qb"}, pendingQ: "qa", sameCpu: true, fixedPreemptibleVictims: true})
+	w := actEvictWorld(evictOpts{bits: 6, nVictims: 1, victimQ: []string{"qb"}, pendingQ: "qa", sameCpu: true, fixedPreemptibleVictims: true, symVictimStatus: true})
 	reclaim.New().Execute(w.ssn)
 	w.observe()
 	cpu := w.pending.cpu[0]
@@ -415,9 +420,9 @@ func VerifC05_ReclaimProgress() {
 
 // VerifC05_PreemptProgress: a pending workload obtains capacity by preempting a strictly
 // lower-priority preemptible workload of its own queue within the cycle.
-// BOUND: 1 full node; queue qa under d; one running preemptible pod, one pending pod, one shared symbolic cpu request, symbolic int32 priorities; symbolic deserved quota
+// BOUND: 1 full node; queue qa under d; one preemptible pod (Running, Bound or Binding), one pending pod, one shared symbolic cpu request, symbolic int32 priorities; symbolic deserved quota
 func VerifC05_PreemptProgress() {
-	w := actEvictWorld(evictOpts{bits: 6, nVictims: 1, victimQ: []string{"qa"}, pendingQ: "qa", sameCpu: true, symPrio: true, fixedPreemptibleVictims: true})
+	w := actEvictWorld(evictOpts{bits: 6, nVictims: 1, victimQ: []string{"qa"}, pendingQ: "qa", sameCpu: true, symPrio: true, fixedPreemptibleVictims: true, symVictimStatus: true})
 	preempt.New().Execute(w.ssn)
 	w.observe()
 	if w.victims[0].priority < w.pending.priority && (w.pending.preempt || w.pending.cpu[0] <= w.queueOf("qa").deserved) {
